@@ -11,6 +11,13 @@ a = ap.parse_args()
 seed = int(os.environ.get("VERIF_SEED", "1") or 1)
 if a.tier not in ("quick", "thorough"):
     a.tier = "quick"
+if a.replay and hasattr(harness.load_check(a.pid), "replay"):
+    bad = harness.load_check(a.pid).replay(a.replay)
+    if bad:
+        print("VIOLATION property=%s replay=%s" % (a.pid, a.replay))
+    else:
+        print("replay passes")
+    sys.exit(1 if bad else 0)
 if a.replay and hasattr(harness.load_check(a.pid), "main"):
     # exhaustive checks: a replay is a fresh complete run
     sys.exit(harness.load_check(a.pid).main(a.tier, seed, None))
